@@ -22,6 +22,8 @@ def cases(seed, tier):
         r = random.Random(sch.np_seed(f"c07.{k}"))
         c = wp.std_case(r, sch.np_seed(f"s{k}"), kinds=("gauss", "bimodal", "expedge", "hole", "halfgauss", "vonmises", "corr"),
                         scenarios=("plain", "plain", "crash_resume", "rerun", "like_raise", "pool_death"), boundaries=True)
+        if r.random() < 0.12:
+            c["rng_extreme"] = dict(rate=0.02, seed=r.randrange(100000))  # own arm: legal extreme uniform draws (0.0 / 1-2^-53)
         if c["target"]["kind"] == "hole":
             c["cfg"]["n_particles"] = max(c["cfg"]["n_particles"], 24)
         out.append(c)
